@@ -10,6 +10,7 @@ import (
 	"testing"
 
 	"github.com/named-data/ndnd/fw/core"
+	"github.com/named-data/ndnd/fw/face"
 	"github.com/named-data/ndnd/fw/table"
 	enc "github.com/named-data/ndnd/std/encoding"
 
@@ -614,6 +615,16 @@ func runRib(ctx *kit.Ctx, sc *kit.Scenario[Config, Op]) *kit.Result {
 	table.VerifResetGlobals()
 	fib := makeFib(sc.Config.Fib, sc.Config.M)
 	kind := sc.Config.Fib
+	// the faces of the scenario exist in the real face table, so that a teardown is the real face.Table.Remove
+	// (face map, dispatch map, RIB clean-up) - also the second time round, for a face that is already gone
+	face.VerifResetFaceTable()
+	for id := uint64(1); id <= 8; id++ {
+		ls := face.MakeNullLinkService(face.MakeNullTransport())
+		face.FaceTable.Add(ls)
+		if ls.FaceID() != id {
+			panic(fmt.Sprintf("harness: face id %d, expected %d", ls.FaceID(), id))
+		}
+	}
 	model := ribModel{}
 	uni := universe(sc.Ops)
 	dg := kit.NewDigest()
@@ -651,7 +662,10 @@ func runRib(ctx *kit.Ctx, sc *kit.Scenario[Config, Op]) *kit.Result {
 		case "cleanup":
 			// what face.Table.Remove does on teardown of a face
 			ctx.Fault("face-teardown")
-			table.Rib.CleanUpFace(o.Face)
+			if face.FaceTable.Get(o.Face) == nil {
+				ctx.Probe("teardown-of-a-face-already-removed")
+			}
+			face.FaceTable.Remove(o.Face)
 			for p, rs := range model {
 				var keep []route
 				for _, r := range rs {
